@@ -48,6 +48,8 @@ for _f in ('malt.pyct.static_analysis.reaching_definitions.Analyzer.visit_node',
 SCRIPTS['malt.pyct.static_analysis.type_inference.Analyzer._update_closure_types'] = ('bounded/c19_types.py', ['1', 'quick'])
 SCRIPTS['malt.pyct.transpiler.PyToPy.transform_function'] = ('bounded/c10_cache.py', ['1', 'quick'])
 
+SCRIPTS['malt.converters.control_flow.ControlFlowTransformer._create_state_functions'] = ('bounded/c03_opcontract.py', ['1', 'quick'])
+
 _cache = {}
 
 
